@@ -1,4 +1,4 @@
-(** C07 — the configurations built on tiled_choice (Subset, Integer, Binary) and the composition of the
+(** C07 — the configurations built on tiled_choice (Subset, Binary; Integer before its repair) and the composition of the
     subset configuration with the sorting optimiser:
     how often every member / individual is used, that nothing else is used, and that the result is a
     2-exchange local optimum of the number of repeated individuals within crosses. *)
@@ -156,7 +156,7 @@ Proof.
   intros i Hi. rewrite (count_z_Permutation _ _ _ Pr), Ex, labels_count by assumption. now apply Cs.
 Qed.
 
-(** * 3. Integer / Binary configurations: options = repeat(arange(len x), x) *)
+(** * 3. tiled_choice over options = repeat(arange(len x), x): the binary configuration (and the former integer one) *)
 Lemma rep_from_count_low : forall x s j, j < s -> count_z (Z.of_nat j) (rep_from s x) = 0.
 Proof.
   induction x as [|c t IH]; intros s j Hj; [reflexivity|]. cbn [rep_from].
@@ -220,11 +220,11 @@ Proof.
   congruence.
 Qed.
 
-Lemma cfg_integer_inv nc np x choice perm pms r : cfg_integer nc np x choice perm pms = Some r ->
+Lemma cfg_repeat_tiled_inv nc np x choice perm pms r : cfg_repeat_tiled nc np x choice perm pms = Some r ->
   (forall c, In c x -> (0 <= c)%Z) /\
   exists s, tiled_choice (rep_from 0 x) (nc * np) false choice perm = Some s /\ xc_tail nc np s pms = Some r.
 Proof.
-  unfold cfg_integer. destruct (shape_ok nc np); [|discriminate].
+  unfold cfg_repeat_tiled. destruct (shape_ok nc np); [|discriminate].
   destruct (rep_options x) as [opts|] eqn:Eo; [|discriminate].
   destruct (rep_options_some _ _ Eo) as [Eopts Hnn]. rewrite Eopts.
   destruct (tiled_choice (rep_from 0 x) (nc * np) false choice perm) as [s|]; [|discriminate].
@@ -232,12 +232,12 @@ Proof.
 Qed.
 
 (** the result in terms of the option array *)
-Lemma cfg_integer_core : forall nc np x choice perm pms r,
+Lemma cfg_repeat_tiled_core : forall nc np x choice perm pms r,
   let opts := rep_from 0 x in let t := nc * np in
   0 < length opts -> NoDup choice -> Forall (fun p => p < length opts) choice -> length choice = t mod length opts ->
   Permutation perm (seq 0 t) ->
   (forall s, tiled_choice opts t false choice perm = Some s -> draws_ok np s pms) ->
-  cfg_integer nc np x choice perm pms = Some r ->
+  cfg_repeat_tiled nc np x choice perm pms = Some r ->
   (forall c, In c x -> (0 <= c)%Z) /\
   length r = t /\ (forall v, In v r -> In v opts) /\
   (forall v, count_z v r = t / length opts * count_z v opts + count_z v (take_labels opts choice) /\
@@ -246,7 +246,7 @@ Lemma cfg_integer_core : forall nc np x choice perm pms r,
   local_opt np r.
 Proof.
   intros nc np x choice perm pms r. cbv zeta. intros Hn Hnd Hr Hl Hperm Hd H.
-  destruct (cfg_integer_inv _ _ _ _ _ _ _ H) as (Hnn & s & Hs & Ht).
+  destruct (cfg_repeat_tiled_inv _ _ _ _ _ _ _ H) as (Hnn & s & Hs & Ht).
   pose proof (Hd s Hs) as Hds.
   destruct (tiled_choice_counts (rep_from 0 x) (nc * np) choice perm s Hn Hnd Hr Hl Hperm Hs) as (Ls & Ins & Cs).
   destruct (xc_tail_spec nc np s pms r Ls Hds Ht) as (Lr & Pr & _ & Or).
@@ -255,12 +255,12 @@ Proof.
   - intros v. rewrite (count_z_Permutation v _ _ Pr). apply Cs.
 Qed.
 
-Theorem cfg_integer_spec : forall nc np x choice perm pms r,
+Theorem cfg_repeat_tiled_spec : forall nc np x choice perm pms r,
   let opts := rep_from 0 x in let t := nc * np in
   0 < length opts -> NoDup choice -> Forall (fun p => p < length opts) choice -> length choice = t mod length opts ->
   Permutation perm (seq 0 t) ->
   (forall s, tiled_choice opts t false choice perm = Some s -> draws_ok np s pms) ->
-  cfg_integer nc np x choice perm pms = Some r ->
+  cfg_repeat_tiled nc np x choice perm pms = Some r ->
   length r = t /\
   (forall v, In v r -> exists i, v = Z.of_nat i /\ i < length x /\ (0 < nth i x 0)%Z) /\
   (forall i, i < length x -> exists e,
@@ -269,7 +269,7 @@ Theorem cfg_integer_spec : forall nc np x choice perm pms r,
   local_opt np r.
 Proof.
   intros nc np x choice perm pms r. cbv zeta. intros Hn Hnd Hr Hl Hperm Hd H.
-  destruct (cfg_integer_core nc np x choice perm pms r Hn Hnd Hr Hl Hperm Hd H) as (Hnn & Lr & Inr & Cr & Or).
+  destruct (cfg_repeat_tiled_core nc np x choice perm pms r Hn Hnd Hr Hl Hperm Hd H) as (Hnn & Lr & Inr & Cr & Or).
   split; [exact Lr|]. split; [|split; [|exact Or]].
   - intros v Hv. apply rep_from_In. now apply Inr.
   - intros i Hi. destruct (Cr (Z.of_nat i)) as (C1 & C2 & C3).
@@ -279,17 +279,17 @@ Proof.
 Qed.
 
 (** the sum of the vector divides the number of slots: every individual is used exactly its proportional share *)
-Theorem cfg_integer_exact : forall nc np x choice perm pms r,
+Theorem cfg_repeat_tiled_exact : forall nc np x choice perm pms r,
   let opts := rep_from 0 x in let t := nc * np in
   0 < length opts -> NoDup choice -> Forall (fun p => p < length opts) choice -> length choice = t mod length opts ->
   Permutation perm (seq 0 t) ->
   (forall s, tiled_choice opts t false choice perm = Some s -> draws_ok np s pms) ->
-  cfg_integer nc np x choice perm pms = Some r ->
+  cfg_repeat_tiled nc np x choice perm pms = Some r ->
   t mod length opts = 0 ->
   forall i, i < length x -> count_z (Z.of_nat i) r = Z.to_nat (nth i x 0%Z) * (t / length opts).
 Proof.
   intros nc np x choice perm pms r. cbv zeta. intros Hn Hnd Hr Hl Hperm Hd H Hm i Hi.
-  destruct (cfg_integer_spec nc np x choice perm pms r Hn Hnd Hr Hl Hperm Hd H) as (_ & _ & Cr & _).
+  destruct (cfg_repeat_tiled_spec nc np x choice perm pms r Hn Hnd Hr Hl Hperm Hd H) as (_ & _ & Cr & _).
   destruct (Cr i Hi) as (e & C1 & _ & C3). rewrite C1. rewrite Hm in C3. lia.
 Qed.
 
@@ -311,7 +311,7 @@ Theorem cfg_binary_spec : forall nc np x choice perm pms r,
 Proof.
   intros nc np x choice perm pms r. cbv zeta. intros Hn Hnd Hr Hl Hperm Hd H.
   unfold cfg_binary in H. destruct (is_binary x) eqn:Eb; [|discriminate].
-  destruct (cfg_integer_spec nc np x choice perm pms r Hn Hnd Hr Hl Hperm Hd H) as (Lr & _ & Cr & Or).
+  destruct (cfg_repeat_tiled_spec nc np x choice perm pms r Hn Hnd Hr Hl Hperm Hd H) as (Lr & _ & Cr & Or).
   split; [|split; [|split; [exact Lr | exact Or]]].
   - intros i Hi E1. destruct (Cr i Hi) as (e & C1 & C2 & _). rewrite E1 in C1, C2.
     change (Z.to_nat 1) with 1 in C1, C2. lia.
@@ -323,12 +323,14 @@ Qed.
 Corollary cfg_binary_cases : forall x i, is_binary x = true -> i < length x -> nth i x 0%Z = 0%Z \/ nth i x 0%Z = 1%Z.
 Proof. intros x i. apply is_binary_nth. Qed.
 
-(** * 4. 'within one of the proportional share' fails when the sum does not divide the number of slots *)
-Theorem cfg_integer_share_refuted : exists nc np x choice perm pms r i,
+(** * 4. the integer configuration before commit e5bdc2c0 ([old_cfg_integer] = [cfg_repeat_tiled]): 'within one of the
+      proportional share' failed when the sum does not divide the number of slots (regression witness; the repaired
+      code is [cfg_integer], proved at full strength in Proofs/C07_Integer.v) *)
+Theorem old_cfg_integer_share_refuted : exists nc np x choice perm pms r i,
   let opts := rep_from 0 x in let t := nc * np in
   NoDup choice /\ Forall (fun p => p < length opts) choice /\ length choice = t mod length opts /\ Permutation perm (seq 0 t) /\
   (forall s, tiled_choice opts t false choice perm = Some s -> draws_ok np s pms) /\
-  cfg_integer nc np x choice perm pms = Some r /\ i < length x /\
+  old_cfg_integer nc np x choice perm pms = Some r /\ i < length x /\
   (Z.of_nat (length opts) < Z.abs (Z.of_nat (count_z (Z.of_nat i) r) * Z.of_nat (length opts) - Z.of_nat t * nth i x 0%Z))%Z.
 Proof.
   exists 3, 1, [3;3]%Z, [0;1;2], [0;1;2], [[0;1;2];[0];[0];[0]], [0;0;0]%Z, 0. cbv zeta.
@@ -399,12 +401,12 @@ Example C07_tiled_hyps_satisfiable :
   (forall s, cfg_subset_sample nc np decn choice perm = Some s -> draws_ok np s pms) /\
   cfg_subset_sample nc np decn choice perm = Some [2;2;5;7]%Z /\
   cfg_subset nc np decn choice perm pms = Some [2;5;2;7]%Z /\
-  (* cfg_integer_spec *)
+  (* cfg_repeat_tiled_spec *)
   opts = [0;2;3]%Z /\
   0 < length opts /\ Forall (fun p => p < length opts) choice /\ length choice = (nc * np) mod length opts /\
   (forall s, tiled_choice opts (nc * np) false choice perm = Some s -> draws_ok np s pms) /\
   tiled_choice opts (nc * np) false choice perm = Some [2;2;0;3]%Z /\
-  cfg_integer nc np x choice perm pms = Some [2;0;2;3]%Z.
+  cfg_repeat_tiled nc np x choice perm pms = Some [2;0;2;3]%Z.
 Proof.
   cbv zeta.
   assert (Hdraw : forall s y n, outcross 2 s [seq 0 6; seq 0 6; [1; 0]; [0; 1]] = Some (y, n) -> n = 2 -> length s = 4 ->
@@ -439,9 +441,9 @@ Print Assumptions cfg_subset_multiset_spec.
 Print Assumptions rep_from_count.
 Print Assumptions rep_from_In.
 Print Assumptions rep_from_length.
-Print Assumptions cfg_integer_spec.
-Print Assumptions cfg_integer_exact.
+Print Assumptions cfg_repeat_tiled_spec.
+Print Assumptions cfg_repeat_tiled_exact.
 Print Assumptions cfg_binary_spec.
-Print Assumptions cfg_integer_share_refuted.
+Print Assumptions old_cfg_integer_share_refuted.
 Print Assumptions select_sort_subset_spec.
 Print Assumptions C07_tiled_hyps_satisfiable.
